@@ -63,7 +63,11 @@ def _w10c(ctx):
     ok = ep is not None and rd is not None and ep.isdigit() and rd.isdigit() and int(ep) & int(rd) == 0 and int(ep) != 0 and int(rd) != 0
     ctx.add('W10', 'T-FLOW', fn, ok, 'epoch bit (%s) and no-reader bit (%s) are distinct non-zero bits' % (ep, rd) if ok else
             'signal bits overlap or are zero: epoch=%s no-reader=%s' % (ep, rd), sub='bits-disjoint')
-    ok2 = b['set_epoch'][0] == 'fetch_or' and b['set_reader'][0] == 'fetch_or' and b['clear_epoch'][0] == 'fetch_and' and \
+    oks = b['set_epoch'][0] == 'fetch_or' and b['set_reader'][0] == 'fetch_or'
+    ctx.add('W10', 'T-FLOW', b['set_epoch'][2], oks, 'set_epoch / set_reader only OR their own bit into the signal word' if oks else
+            'a signal setter does not use fetch_or (set_epoch: %s, set_reader: %s): it overwrites the neighbouring bit of the word (e.g. starting a reclamation cycle wipes the sticky no-reader bit, and sends succeed again with no receiver left)'
+            % (b['set_epoch'][0], b['set_reader'][0]), where=b['set_epoch'][3], sub='setters-or')
+    ok2 = b['clear_epoch'][0] == 'fetch_and' and \
         b['clear_epoch'][1] in ('not:' + str(ep), str((~int(ep)) & (2 ** 64 - 1)) if ep and ep.isdigit() else None)
     ctx.add('W10', 'T-FLOW', b['clear_epoch'][2], ok2, 'clear_epoch masks exactly the epoch bit (the no-reader bit survives a completed reclamation cycle)' if ok2 else
             'clear_epoch does not clear exactly the epoch bit (mask %s): it can wipe the no-reader bit' % b['clear_epoch'][1], where=b['clear_epoch'][3], sub='clear-epoch-mask')
